@@ -32,6 +32,10 @@ pub enum FrameEnc {
     Full,
     /// Random choice among the applicable encodings per frame.
     Mixed,
+    /// The frames travel in the older CLDC `StackMap` attribute (absolute offsets, every entry a full frame,
+    /// entries in DESCENDING offset order: the format promises no order). `parse` does not model that attribute
+    /// (it comes back as an unknown one); the encoding exists for checks that compare a reader with the model.
+    Cldc,
 }
 
 /// Everything about a class file that is not a fact. `Layout::default()` is
